@@ -66,31 +66,31 @@ def CW.flush (w : CW) : CW × Option (List CItem) :=
 /-- `stopTimerLocked` -/
 def CW.stopTimer (w : CW) : CW := { w with timer := none }
 
+/-- first half of `Add`: remember the mode, record the item -/
+def CW.record (w : CW) (x : CItem) (c : BatchCfg) : CW :=
+  if c.latest ∧ x.frame = .pub then
+    { w with latestOnly := c.latest, latestPubs := eraseKey x.key w.latestPubs ++ [x] }
+  else { w with latestOnly := c.latest, buffer := w.buffer ++ [x] }
+
+/-- "Start timer on first item." -/
+def CW.arm (w : CW) (now : Nat) (c : BatchCfg) : CW :=
+  if 0 < c.maxDelay ∧ w.buffer.length + w.latestPubs.length = 1 ∧ w.timer = none then
+    { w with timer := some w.nextId, nextId := w.nextId + 1, deadline := now + c.maxDelay }
+  else w
+
 /-- `channelWriter.Add(item, config)` at virtual time `now` -/
 def CW.add (w : CW) (now : Nat) (x : CItem) (c : BatchCfg) : CW × Option (List CItem) :=
-  let w1 := { w with latestOnly := c.latest }
-  let w2 :=
-    if c.latest ∧ x.frame = .pub then { w1 with latestPubs := eraseKey x.key w1.latestPubs ++ [x] }
-    else { w1 with buffer := w1.buffer ++ [x] }
-  let total := w2.buffer.length + w2.latestPubs.length
-  let w3 :=
-    if 0 < c.maxDelay ∧ total = 1 ∧ w2.timer = none then
-      { w2 with timer := some w2.nextId, nextId := w2.nextId + 1, deadline := now + c.maxDelay }
-    else w2
-  if 0 < c.maxSize ∧ c.maxSize ≤ total then w3.stopTimer.flush else (w3, none)
+  let w3 := (w.record x c).arm now c
+  if 0 < c.maxSize ∧ c.maxSize ≤ w3.buffer.length + w3.latestPubs.length then w3.stopTimer.flush else (w3, none)
 
 /-- the `waitTimer` goroutine of timer `id` saw its timer fire and took the lock -/
 def CW.fire (w : CW) (id : Nat) : CW × Option (List CItem) :=
-  if w.timer = some id then
-    let (w1, b) := w.flush
-    ({ w1 with timer := none }, b)
-  else (w, none)
+  if w.timer = some id then ({ w.flush.1 with timer := none }, w.flush.2) else (w, none)
 
 /-- `channelWriter.close(flushRemaining)` -/
 def CW.close (w : CW) (flushRemaining : Bool) : CW × Option (List CItem) :=
-  let w1 := w.stopTimer
-  let (w2, b) := if flushRemaining then w1.flush else (w1, none)
-  ({ w2 with buffer := [], latestPubs := [] }, b)
+  let r := if flushRemaining then w.stopTimer.flush else (w.stopTimer, none)
+  ({ r.1 with buffer := [], latestPubs := [] }, r.2)
 
 /-! ## One channel writer as a transition system -/
 
